@@ -1,10 +1,139 @@
-import Martian.Util
-/-! STUB — property C04 is not built yet. -/
+import Martian.Model.Tunnel
+/-! Driver for C04: replays the harness's ops on the tunnel model, one `Pump.step` per event, and
+prints what each end has received so far (length:fnv64a), the EOF flags and release. -/
 namespace Martian.Drv.C04
-open Martian
+open Martian Martian.Tunnel
 
-abbrev St := Unit
-def init : St := ()
-def step (s : St) (_toks : List String) : St × String := (s, "bad-op")
+/-- byte at offset `i` of the stream with the given seed (same function as `pat` in c04.go) -/
+def pat (seed i : Nat) : UInt8 := UInt8.ofNat ((i * 167 + (i / 256) * 13 + seed) % 256)
+
+def stream (seed off n : Nat) : Bytes := (List.range n).map fun j => pat seed (off + j)
+
+structure Digest where
+  n : Nat := 0
+  h : UInt64 := 14695981039346656037
+
+def Digest.add (d : Digest) (bs : Bytes) : Digest :=
+  { n := d.n + bs.length, h := bs.foldl (fun h b => (h ^^^ b.toUInt64) * 1099511628211) d.h }
+
+def hex64 (x : UInt64) : String :=
+  String.ofList ((List.range 16).map fun i => hexDigit ((x.toNat >>> (4 * (15 - i))) % 16))
+
+def Digest.show (d : Digest) : String := s!"{d.n}:{hex64 d.h}"
+
+/-- apply a pump's actions to the digest / EOF flag of the receiving end -/
+def deliver (d : Digest) (eof : Bool) : List Act → Digest × Bool
+  | [] => (d, eof)
+  | .write bs :: as => deliver (d.add bs) eof as
+  | .closeWrite :: as => deliver d true as
+
+structure St where
+  phase : Nat := 0          -- 0 fresh, 1 tunnel open, 2 no tunnel
+  cfg : Cfg := ⟨⟨true, true⟩, ⟨true, true⟩⟩
+  seedC : Nat := 0
+  seedT : Nat := 0
+  sentC : Nat := 0
+  sentT : Nat := 0
+  up : Pump := ⟨[], false⟩
+  down : Pump := ⟨[], false⟩
+  tD : Digest := {}
+  cD : Digest := {}
+  tEOF : Bool := false      -- what the target's reader has seen: propagated EOF, or its own full close
+  cEOF : Bool := false
+  cClosed : Nat := 0        -- 0 open, 1 half, 2 full
+  tClosed : Nat := 0
+
+def init : St := {}
+
+def kindOf (s : String) : Option ConnKind :=
+  if s = "tcp" then some ⟨true, true⟩
+  else if s = "plain" || s = "tls" then some ⟨false, false⟩
+  else none
+
+def b01 (b : Bool) : String := if b then "1" else "0"
+
+def St.obs (s : St) : String :=
+  s!"t={s.tD.show} c={s.cD.show} teof={b01 s.tEOF} ceof={b01 s.cEOF}"
+
+def St.upLoop (s : St) : Loop := readerWriteToLoop s.cfg.target s.cfg.client
+def St.downLoop (s : St) : Loop := ioCopyLoop s.cfg.client s.cfg.target
+
+def St.stepUp (s : St) (e : Ev) : St :=
+  let r := s.up.step s.upLoop e
+  let (d, eof) := deliver s.tD s.tEOF r.2
+  { s with up := r.1, tD := d, tEOF := eof }
+
+def St.stepDown (s : St) (e : Ev) : St :=
+  let r := s.down.step s.downLoop e
+  let (d, eof) := deliver s.cD s.cEOF r.2
+  { s with down := r.1, cD := d, cEOF := eof }
+
+def openOp (route lst tgt : String) (early banner seedC seedT : Nat) : Option St := do
+  let ck ← kindOf lst
+  let tk ← kindOf tgt
+  if route ≠ "direct" ∧ route ≠ "via" ∧ route ≠ "viafake" then none
+  let cfg : Cfg := ⟨ck, tk⟩
+  let earlyB := stream seedC 0 early
+  let bannerB := stream seedT 0 banner
+  -- viafake: the downstream proxy's head and the banner arrive in one segment: connect() hands them over as res.Body
+  let ahead := if route = "viafake" then bannerB else []
+  let s : St := { phase := 1, cfg := cfg, seedC := seedC, seedT := seedT, sentC := early, sentT := banner,
+                  up := ⟨earlyB, false⟩, down := ⟨[], false⟩ }
+  -- res.Write(brw); brw.Flush(): head, then res.Body
+  let (cD, _) := deliver s.cD false (if ahead.isEmpty then [] else [.write ahead])
+  let s := { s with cD := cD }
+  -- both pumps start: the client-bound one has nothing buffered, the target-bound one writes out brw.Reader's buffer
+  let r := s.up.start
+  let (tD, _) := deliver s.tD false r.2
+  let s := { s with up := r.1, tD := tD }
+  let r := s.down.start
+  let (cD, _) := deliver s.cD false r.2
+  let s := { s with down := r.1, cD := cD }
+  -- a banner that was not read ahead is the target's first segment
+  if route ≠ "viafake" ∧ banner > 0 then some (s.stepDown (.data bannerB)) else some s
+
+def step (s : St) (toks : List String) : St × String :=
+  match toks with
+  | ["unreach", route, lst] =>
+    if s.phase ≠ 0 ∨ (kindOf lst).isNone ∨ (route ≠ "direct" ∧ route ≠ "via") then (s, "bad-op") else
+    let o := handleConnect s.cfg .refused [] [] []
+    ({ s with phase := 2 }, s!"status {o.status} {if o.warning then "warning" else "nowarning"}")
+  | ["open", route, lst, tgt, early, banner, seedC, seedT] =>
+    if s.phase ≠ 0 then (s, "bad-op") else
+    match early.toNat?, banner.toNat?, seedC.toNat?, seedT.toNat? with
+    | some e, some b, some sc, some st =>
+      match openOp route lst tgt e b sc st with
+      | some s' => (s', s!"status 200 {s'.obs}")
+      | none => (s, "bad-op")
+    | _, _, _, _ => (s, "bad-op")
+  | ["send", nC, nT, _seed] =>
+    if s.phase ≠ 1 then (s, "bad-op") else
+    match nC.toNat?, nT.toNat? with
+    | some nC, some nT =>
+      -- harness rule: nothing is sent by an end that has finished sending, nor towards an end that is gone
+      let nC := if s.cClosed ≠ 0 ∨ s.tClosed = 2 then 0 else nC
+      let nT := if s.tClosed ≠ 0 ∨ s.cClosed = 2 then 0 else nT
+      let s := if nC > 0 then { s.stepUp (.data (stream s.seedC s.sentC nC)) with sentC := s.sentC + nC } else s
+      let s := if nT > 0 then { s.stepDown (.data (stream s.seedT s.sentT nT)) with sentT := s.sentT + nT } else s
+      (s, s.obs)
+    | _, _ => (s, "bad-op")
+  | ["close", who, how] =>
+    if s.phase ≠ 1 ∨ (who ≠ "c" ∧ who ≠ "t") ∨ (how ≠ "half" ∧ how ≠ "full") then (s, "bad-op") else
+    let lvl := if how = "half" then 1 else 2
+    if who = "c" then
+      if s.cClosed = 2 ∨ s.cClosed = lvl then (s, s.obs) else
+      let s := if s.cClosed = 0 then s.stepUp .eof else s
+      let s := { s with cClosed := lvl, cEOF := s.cEOF || lvl = 2 }
+      (s, s.obs)
+    else
+      if s.tClosed = 2 ∨ s.tClosed = lvl then (s, s.obs) else
+      let s := if s.tClosed = 0 then s.stepDown .eof else s
+      let s := { s with tClosed := lvl, tEOF := s.tEOF || lvl = 2 }
+      (s, s.obs)
+  | ["end"] =>
+    if s.phase ≠ 1 then (s, "end n/a")
+    else if s.cClosed = 0 ∨ s.tClosed = 0 then (s, "end open")
+    else (s, if s.up.finished && s.down.finished then "end released" else "end blocked")
+  | _ => (s, "bad-op")
 
 end Martian.Drv.C04
